@@ -117,6 +117,7 @@ func runC10(cases string, res *Result) {
 		}
 	})
 	// last: a rendering that does not end leaves a goroutine behind; the results so far are complete
+	c10ParentInsideConstructs(res)
 	c10IncludedChains(res)
 }
 
@@ -186,6 +187,56 @@ func c10IncludedChains(res *Result) {
 			if got != want {
 				res.add(Finding{Kind: "oracle", Where: "c10-included-chains/" + pg.name, Case: c, Expected: want, Observed: got,
 					Detail: "the included template's blocks are not resolved along its own extends chain (included alone it renders " + strconv.Quote(alone) + ")"})
+			}
+		}
+	}
+}
+
+// c10ParentInsideConstructs: parent() yields what the next definition up the chain renders, wherever it stands in the
+// overriding block: alone in an apply block, in spaceless, in a condition, in a loop, next to text, at two levels.
+func c10ParentInsideConstructs(res *Result) {
+	const base = "<t>{% block title %}Site {{ name }}{% endblock %}</t>"
+	const p = "Site acme"
+	wrappers := []struct {
+		name, open, close string
+		f                 func(string) string
+	}{
+		{"apply-upper-alone", "{% apply upper %}", "{% endapply %}", strings.ToUpper},
+		{"apply-lower-alone", "{% apply lower %}", "{% endapply %}", strings.ToLower},
+		{"apply-upper-with-text", "{% apply upper %}x ", " y{% endapply %}", func(s string) string { return strings.ToUpper("x " + s + " y") }},
+		{"spaceless", "{% spaceless %}", "{% endspaceless %}", func(s string) string { return s }},
+		{"if", "{% if name %}", "{% endif %}", func(s string) string { return s }},
+		{"for", "{% for i in [1, 2] %}", "{% endfor %}", func(s string) string { return s + s }},
+		{"apply-in-if", "{% if name %}{% apply upper %}", "{% endapply %}{% endif %}", strings.ToUpper},
+		{"nested-apply", "{% apply lower %}{% apply upper %}", "{% endapply %}{% endapply %}", strings.ToLower},
+		{"plain", "", "", func(s string) string { return s }},
+	}
+	for _, w := range wrappers {
+		for _, spaced := range []bool{false, true} {
+			call := "{{ parent() }}"
+			if spaced {
+				call = "{{parent()}}"
+			}
+			eng := twig.New()
+			eng.RegisterString("base", base)
+			eng.RegisterString("page", "{% extends 'base' %}{% block title %}"+w.open+call+w.close+"{% endblock %}")
+			eng.RegisterString("leaf", "{% extends 'page' %}{% block title %}["+call+"]{% endblock %}")
+			eng.RegisterString("leaf2", "{% extends 'page' %}{% block title %}"+w.open+call+w.close+"{% endblock %}")
+			for _, tc := range []struct{ tpl, want string }{
+				{"page", "<t>" + w.f(p) + "</t>"}, {"leaf", "<t>[" + w.f(p) + "]</t>"}, {"leaf2", "<t>" + w.f(w.f(p)) + "</t>"},
+			} {
+				c := Case{"stream": "c10-parent-inside", "construct": w.name, "template": tc.tpl, "compact call": spaced}
+				res.Hist["stream:c10-parent-inside"]++
+				res.Evaluations++
+				res.count("c10-parent-inside/"+w.name+tc.tpl+fmt.Sprint(spaced), true)
+				got, err := eng.Render(tc.tpl, map[string]interface{}{"name": "acme"})
+				if err != nil {
+					got = "error: " + err.Error()
+				}
+				if got != tc.want {
+					res.add(Finding{Kind: "oracle", Where: "c10-parent-inside/" + w.name + "/" + tc.tpl, Case: c, Expected: tc.want, Observed: got,
+						Detail: "parent() inside " + w.name + " of an overriding block does not yield what the parent's definition renders (" + p + ")"})
+				}
 			}
 		}
 	}
